@@ -152,6 +152,8 @@ func (b *Bucket) stalledNow() bool {
 
 // World is one backup run.
 type World struct {
+	Prop   string
+	Only   map[string]bool // oracles that count (nil: all)
 	S      *kernel.Sim
 	T      *kernel.Tape
 	Dir    string
@@ -175,7 +177,10 @@ func (w *World) tracef(format string, a ...any) {
 }
 
 func (w *World) fail(kind, format string, a ...any) {
-	w.S.Fail("C17."+kind, fmt.Sprintf(format, a...))
+	if w.Only != nil && !w.Only[kind] {
+		return // another property's business in this scenario
+	}
+	w.S.Fail(w.Prop+"."+kind, fmt.Sprintf(format, a...))
 }
 
 func (w *World) snapshotFile() [32]byte {
@@ -192,9 +197,13 @@ func (w *World) snapshotFile() [32]byte {
 }
 
 // Run is the C17 scenario.
-func Run(s *kernel.Sim) *World {
+func Run(s *kernel.Sim) *World { return RunFor(s, "C17", nil) }
+
+// RunFor runs the backup scenario on behalf of prop; only, if non-nil, names
+// the oracles that count (C05: the backup task must not need the key service).
+func RunFor(s *kernel.Sim, prop string, only map[string]bool) *World {
 	log.SetOutput(io.Discard) // backup.go logs through the standard logger
-	w := &World{S: s, T: s.T, files: map[[32]byte]bool{}}
+	w := &World{Prop: prop, Only: only, S: s, T: s.T, files: map[[32]byte]bool{}}
 	t := s.T
 	s.SetFree(true)
 	dir, err := os.MkdirTemp(dbworld.ScratchRoot(), "verif-bk-")
@@ -222,6 +231,13 @@ func Run(s *kernel.Sim) *World {
 		return w
 	}
 	w.DB = d
+	kekBase := kek.Count()
+	if t.Bool(1, 3) {
+		// the key service is unreachable from now on: a running server,
+		// its backups included, does not depend on it
+		kek.Outage = true
+		s.Fault("kek-outage")
+	}
 	sup := db.Caller{Permissions: acl.Rules{{Action: []acl.Action{"get", "info", "put", "activate", "delete"}, Secret: []acl.Secret{"*"}}}}
 	for i := t.Choice(3); i > 0; i-- {
 		d.Put(sup, "seed", []byte(fmt.Sprintf("v%d", i)))
@@ -246,6 +262,17 @@ func Run(s *kernel.Sim) *World {
 
 	// schedule
 	horizon := time.Duration(t.Range(40, 240)) * time.Minute
+	maxSteps := 6000
+	if t.Bool(1, 12) {
+		// an outage of the bucket that lasts most of a day: every upload fails
+		w.Bucket.Script = nil
+		for i := 0; i < 1000; i++ {
+			w.Bucket.Script = append(w.Bucket.Script, 1+t.Choice(2))
+		}
+		horizon = time.Duration(t.Range(13*60, 16*60)) * time.Minute
+		maxSteps = 30000
+		s.Fault("s3-outage-of-many-hours")
+	}
 	ctx, cancel := context.WithCancel(context.Background())
 	defer cancel()
 	// the server's context may also end by itself, at a deadline (a server
@@ -288,7 +315,7 @@ func Run(s *kernel.Sim) *World {
 	idleFrom := time.Duration(-1)
 	idleLocks := 0
 
-	for step := 0; step < 6000 && !s.Failed(); step++ {
+	for step := 0; step < maxSteps && !s.Failed(); step++ {
 		w.snapshotFile()
 		if !cancelled && ctx.Err() != nil {
 			// the deadline of the server's context has passed
@@ -423,6 +450,9 @@ func Run(s *kernel.Sim) *World {
 		}
 	}
 	w.snapshotFile()
+	if n := kek.Count() - kekBase; n != 0 && !s.Failed() && w.Prop == "C05" {
+		w.fail("kek", "the key-encryption key was consulted %d times after Open while the server wrote and backed up its database", n)
+	}
 	if !s.Failed() {
 		w.judge(cancelled, cancelT, loopDone, loopDoneT, lastWriteT)
 	}
